@@ -352,3 +352,68 @@ theorem calls_prefix {a b : Nat} {s : TState} {l : List (Option (Except ParseErr
       rw [← h.1, List.take_left' hlen]
 
 end Trion.Parse
+
+namespace Trion.Parse
+
+/-- the states a parser run can be in: standing for a remaining token list of the batch model, or finished -/
+def Reach (lo : LexOut) (s : TState) : Prop := (∃ ts, Rel lo s ts) ∨ s.finished
+
+theorem reach_init (lo : LexOut) : Reach lo (TState.init lo) := Or.inl ⟨lo.toks, rel_init lo⟩
+
+theorem finished_size {s : TState} (h : s.finished) : s.size = 0 := by
+  obtain ⟨q, te, src, se, el, ec⟩ := s
+  obtain ⟨rfl, rfl, rfl, rfl⟩ := h
+  rfl
+
+/-- one call from a reachable state: no panic, and it either yields an item and strictly shrinks what the
+tokenizer can still produce, or yields `None` on a finished tokenizer and changes nothing -/
+theorem next_progress {lo : LexOut} {s : TState} (h : Reach lo s) :
+    match next s with
+    | .item _ s' => Reach lo s' ∧ s'.size < s.size
+    | .done s' => s' = s ∧ s.finished
+    | .panic => False
+    | .fuel => False := by
+  rcases h with ⟨ts, hr⟩ | hf
+  · have hspec := next_spec hr
+    have hsz := rel_size hr
+    cases ts with
+    | nil =>
+      simp only [] at hspec
+      cases hn : lo.err with
+      | none =>
+        rw [hn] at hspec
+        rw [hspec.1]
+        exact ⟨rfl, hspec.2⟩
+      | some e =>
+        rw [hn] at hspec
+        obtain ⟨s', hnext, hf⟩ := hspec
+        rw [hnext]
+        refine ⟨Or.inr hf, ?_⟩
+        rw [finished_size hf, hsz, hn]
+        simp
+    | cons t r =>
+      simp only [] at hspec
+      cases he : element lo t r with
+      | ok p =>
+        rw [he] at hspec
+        obtain ⟨s', hnext, hr'⟩ := hspec
+        rw [hnext]
+        refine ⟨Or.inl ⟨_, hr'⟩, ?_⟩
+        have := (element_ok (el := p.1) (r' := p.2) he).1
+        rw [rel_size hr', hsz]
+        simp only [List.length_cons]
+        omega
+      | err e =>
+        rw [he] at hspec
+        obtain ⟨s', hnext, hf⟩ := hspec
+        rw [hnext]
+        refine ⟨Or.inr hf, ?_⟩
+        rw [finished_size hf, hsz]
+        simp only [List.length_cons]
+        omega
+      | panic => rw [he] at hspec; exact hspec.elim
+      | fuel => rw [he] at hspec; exact hspec.elim
+  · rw [next_finished hf]
+    exact ⟨rfl, hf⟩
+
+end Trion.Parse
